@@ -138,7 +138,7 @@ def collect_asgi(req, order):
 HEADER_POOL = {
     "Cookie": ["a=1; b=2", 'sid="q\\073x"; theme=dark', "=bare; x", "a=1;a=2", ""],
     "Accept": ["text/html, application/json;q=0.9, */*;q=0.8", "application/*", "", "*/*", "text/plain;level=1"],
-    "Content-Length": ["12", "0", "abc", "-1"],
+    "Content-Length": ["12", "0", "abc", "-1", ""],
     "Date": ["Sat, 26 Sep 2026 11:10:00 GMT", "junk", "Sat, 26 Sep 2026 11:10:00 +0200"],
     "Referer": ["http://example.com/a?b#c", "/relative", "http://[::1/"],
     "Host": ["example.com", "example.com:8080", "[::1]:81", "EXAMPLE.com"],
@@ -154,7 +154,7 @@ def gen_view_request(rng):
     headers = []
     for name in rng.sample(list(HEADER_POOL), rng.randrange(0, 6)):
         headers.append((name, rng.choice(HEADER_POOL[name])))
-    kind = rng.choice(["json", "badjson", "urlenc", "multipart", "raw", "none", "json-charset", "urlenc-charset"] + (["multipart-many"] if rng.random() < 0.15 else []))
+    kind = rng.choice(["json", "badjson", "urlenc", "multipart", "raw", "none", "json-charset", "urlenc-charset", "empty-ct"] + (["multipart-many"] if rng.random() < 0.15 else []))
     body = b""
     if kind == "json":
         body, ct = rng.choice([b'{"a": [1, 2]}', b'"\xc3\xa9"', b"[]"]), "application/json"
@@ -179,6 +179,8 @@ def gen_view_request(rng):
                 "preamble": b"", "epilogue": b"", "pad": b""}
         body, _ = MC.encode(form)
         ct = MC.content_type_header(form)
+    elif kind == "empty-ct":
+        body, ct = rng.choice([b"", b"x=1"]), ""  # a Content-Type header that is present but empty
     elif kind == "raw":
         body, ct = bytes(rng.randrange(256) for _ in range(rng.randrange(0, 40))), "application/octet-stream"
     else:
